@@ -495,6 +495,14 @@ impl<'g> Tr<'g> {
                 };
                 Ok((s2, t))
             }
+            "clamp" => {
+                let (s, t) = self.ex(&m.receiver, expect)?;
+                let (lo, lt) = self.ex(args[0], &t)?;
+                let (hi, _) = self.ex(args[1], &t)?;
+                let t = if t.is_int() { t } else { lt };
+                if !t.is_int() { return Err(format!("untyped receiver of clamp at {}", loc(m.span()))); }
+                Ok((format!("(max {} (min {} {}))", lo, hi, s), t))
+            }
             _ => Err(format!("unsupported method `{}` at {}", name, loc(m.span()))),
         }
     }
@@ -997,42 +1005,67 @@ fn fragment_geometry(g: &Global, fns: &[FnSrc], spec: &ModSpec, out: &mut String
 ///    `decompress_fast` that lead to `InvalidLitlen` / `InvalidDist`.
 fn fragment_decoder_guards(g: &Global, fns: &[FnSrc], spec: &ModSpec, defs: &mut Vec<(String, String)>, errors: &mut Vec<String>, manifest: &mut String, add: &mut dyn FnMut(&str, &str, Span, &str, &mut String)) {
     use syn::visit::Visit;
-    struct Ifs<'a> { v: Vec<&'a ExprIf> }
+    // every `if` together with the simple `let`s that precede it in its block
+    struct Ifs<'a> { v: Vec<(&'a ExprIf, Vec<&'a Stmt>)> }
     impl<'ast> Visit<'ast> for Ifs<'ast> {
-        fn visit_expr_if(&mut self, i: &'ast ExprIf) { self.v.push(i); syn::visit::visit_expr_if(self, i); }
+        fn visit_block(&mut self, b: &'ast Block) {
+            let mut before: Vec<&'ast Stmt> = vec![];
+            for st in &b.stmts {
+                if let Stmt::Expr(Expr::If(i), _) = st { self.v.push((i, before.clone())); }
+                if let Stmt::Local(_) = st { before.push(st); }
+            }
+            syn::visit::visit_block(self, b);
+        }
+        fn visit_expr_if(&mut self, i: &'ast ExprIf) {
+            // `else if` chains: the nested `if` is not a statement of a block
+            if let Some((_, e)) = &i.else_branch { if let Expr::If(n) = &**e { self.v.push((n, vec![])); } }
+            syn::visit::visit_expr_if(self, i);
+        }
     }
-    // the statements of a block, ignoring comments: does it (directly) send the decoder to `state`?
-    let leads_to = |b: &Block, state: &str| -> bool {
-        let t = b.to_token_stream().to_string();
-        t.contains(state) && b.stmts.len() <= 2
-    };
-    let mut emit = |fname: &str, state: &str, must_mention: &str, binds: &[(&str, Ty)], def: &str, params: &str, what: &str, defs: &mut Vec<(String, String)>, errors: &mut Vec<String>, manifest: &mut String| {
+    let leads_to = |b: &Block, state: &str| -> bool { b.to_token_stream().to_string().contains(state) && b.stmts.len() <= 2 };
+    let mut emit = |fname: &str, state: &str, mention: Option<&str>, avoid: Option<&str>, binds: &[(&str, Ty)], def: &str, params: &str, what: &str, defs: &mut Vec<(String, String)>, errors: &mut Vec<String>, manifest: &mut String| {
         let f = match fns.iter().find(|f| f.key == fname) { Some(f) => f, None => { errors.push(format!("{}: {} not found", spec.path, fname)); return; } };
         let mut v = Ifs { v: vec![] };
         v.visit_block(f.block);
-        let hits: Vec<&ExprIf> = v.v.iter().cloned().filter(|i| leads_to(&i.then_branch, state) && i.cond.to_token_stream().to_string().contains(must_mention)).collect();
-        if hits.len() != 1 { errors.push(format!("{}: {}: expected exactly one check on `{}` leading to {}, found {}", spec.path, fname, must_mention, state, hits.len())); return; }
+        let hits: Vec<&(&ExprIf, Vec<&Stmt>)> = v.v.iter().filter(|(i, _)| {
+            let c = i.cond.to_token_stream().to_string();
+            leads_to(&i.then_branch, state) && mention.map(|m| c.contains(m)).unwrap_or(true) && avoid.map(|m| !c.contains(m)).unwrap_or(true)
+        }).collect();
+        if hits.len() != 1 { errors.push(format!("{}: {}: expected exactly one check leading to {} ({:?}/{:?}), found {}", spec.path, fname, state, mention, avoid, hits.len())); return; }
+        let (the_if, before) = hits[0];
         let mut tr = Tr::new(g, "InflCore");
         for (n, t) in binds { tr.bind(n, t.clone()); }
-        match tr.ex(&hits[0].cond, &Ty::Bool) {
+        let mut body: Vec<String> = vec![];
+        // simple lets before the check that translate from the bound locals (never a re-binding of one of them)
+        for st in before {
+            if let Stmt::Local(l) = st { if let Pat::Ident(i) = &l.pat {
+                let n = i.ident.to_string();
+                if binds.iter().any(|(b, _)| *b == n) { continue; }
+                let mut probe = vec![];
+                let fu = tr.free_used.len();
+                if tr.stmts(std::slice::from_ref(*st), &Ty::Bool, 2, &mut probe, false).is_ok() && tr.free_used.len() == fu { body.extend(probe); } else { tr.free_used.truncate(fu); }
+            } }
+        }
+        match tr.ex(&the_if.cond, &Ty::Bool) {
             Ok((c, Ty::Bool)) => {
                 let mut out = String::new();
-                writeln!(out, "-- fragment: {} ({}:{}); true = rejected", what, spec.path, hits[0].span().start().line).unwrap();
-                writeln!(out, "def Gen.InflCore.{} {} : Bool := {}\n", def, params, c).unwrap();
+                writeln!(out, "-- fragment: {} ({}:{}); true = rejected", what, spec.path, the_if.span().start().line).unwrap();
+                if body.is_empty() { writeln!(out, "def Gen.InflCore.{} {} : Bool := {}\n", def, params, c).unwrap(); }
+                else { writeln!(out, "def Gen.InflCore.{} {} : Bool := Id.run do\n{}\n  return {}\n", def, params, body.join("\n"), c).unwrap(); }
                 defs.push((format!("Gen.InflCore.{}", def), out));
-                add(spec.path, &format!("fragment {}", def), hits[0].span(), &hits[0].cond.to_token_stream().to_string(), manifest);
+                add(spec.path, &format!("fragment {}", def), the_if.span(), &the_if.cond.to_token_stream().to_string(), manifest);
             }
             Ok(_) => errors.push(format!("{}: {}: the check leading to {} is not a boolean expression", spec.path, fname, state)),
             Err(e) => errors.push(format!("{}: {}: check leading to {}: {}", spec.path, fname, state, e)),
         }
     };
-    emit("init_tree", "BadTotalSymbols", "left", &[("left", Ty::I(32))], "tree_oversubscribed", "(left : Int)",
+    emit("init_tree", "BadTotalSymbols", Some("left"), None, &[("left", Ty::I(32))], "tree_oversubscribed", "(left : Int)",
         "over-subscription check in init_tree", defs, errors, manifest);
-    emit("init_tree", "BadTotalSymbols", "total", &[("total", Ty::U(32)), ("bt", Ty::U(64)), ("max_code_len", Ty::U(32))],
+    emit("init_tree", "BadTotalSymbols", None, Some("left"), &[("total", Ty::U(32)), ("bt", Ty::U(64)), ("max_code_len", Ty::U(32))],
         "tree_incomplete_rejects", "(total : Int) (bt : Int) (max_code_len : Int)", "incomplete-code check in init_tree", defs, errors, manifest);
-    emit("decompress_fast", "InvalidLitlen", "counter", &[("l_counter", Ty::U(32))], "fast_litlen_invalid", "(l_counter : Int)",
+    emit("decompress_fast", "InvalidLitlen", Some("counter"), None, &[("l_counter", Ty::U(32))], "fast_litlen_invalid", "(l_counter : Int)",
         "literal/length symbol check in decompress_fast", defs, errors, manifest);
-    emit("decompress_fast", "InvalidDist", "symbol", &[("symbol", Ty::I(32))], "fast_dist_invalid", "(symbol : Int)",
+    emit("decompress_fast", "InvalidDist", Some("symbol"), None, &[("symbol", Ty::I(32))], "fast_dist_invalid", "(symbol : Int)",
         "distance symbol check in decompress_fast", defs, errors, manifest);
 }
 
@@ -1047,20 +1080,24 @@ fn fragment_routing(g: &Global, fns: &[FnSrc], spec: &ModSpec, out: &mut String,
     let mut body = vec![];
     let mut text = String::new();
     let mut done = false;
-    // take the lets that only depend on d.params.flags, up to compress_success
-    let wanted = ["one_probe", "greedy", "filter_or_rle", "raw", "compress_success"];
+    // every simple `let` before `compress_success` that translates from what is bound so far (the
+    // flags word and earlier such lets) is taken; anything else is not needed by the routing and skipped
     for s in &f.block.stmts {
         if let Stmt::Local(l) = s {
             if let Pat::Ident(i) = &l.pat {
                 let n = i.ident.to_string();
-                if wanted.contains(&n.as_str()) || l.init.as_ref().map(|x| x.expr.to_token_stream().to_string().contains("d . params . flags &")).unwrap_or(false) && !["prev_ok", "flush_finish_once"].contains(&n.as_str()) {
+                if n == "compress_success" {
                     text.push_str(&s.to_token_stream().to_string());
-                    if n == "compress_success" {
-                        match tr.ex(&l.init.as_ref().unwrap().expr, &Ty::I(32)) { Ok((v, _)) => { body.push(format!("  return {}", v)); done = true; } Err(e) => { errors.push(format!("{}: routing fragment: {}", spec.path, e)); return; } }
-                        break;
-                    }
-                    if let Err(e) = tr.stmts(std::slice::from_ref(s), &Ty::I(32), 2, &mut body, false) { errors.push(format!("{}: routing fragment: {}", spec.path, e)); return; }
+                    match tr.ex(&l.init.as_ref().unwrap().expr, &Ty::I(32)) { Ok((v, _)) => { body.push(format!("  return {}", v)); done = true; } Err(e) => { errors.push(format!("{}: routing fragment: {}", spec.path, e)); return; } }
+                    break;
                 }
+                if ["prev_ok", "flush_finish_once"].contains(&n.as_str()) { continue; }
+                let mut probe = vec![];
+                let free_before = tr.free_used.len();
+                if tr.stmts(std::slice::from_ref(s), &Ty::I(32), 2, &mut probe, false).is_ok() && tr.free_used.iter().all(|(n, _)| n == "d_params_flags") {
+                    text.push_str(&s.to_token_stream().to_string());
+                    body.extend(probe);
+                } else { tr.free_used.truncate(free_before); }
             }
         }
     }
